@@ -4,6 +4,7 @@
    Not part of any theorem.  (The decoders owned by C04/C05/C13/C14/C17/C20 are compared value
    by value in those properties' checks; C03's harness adds crash-freedom on a larger stream.) *)
 From Hy Require Import lib.Harness model.C03_UDPRecv model.C03_Speedtest model.C03_Stun.
+From Hy Require model.C14_Gecko model.C03_Gecko gen.ParamsC14.
 From Coq Require Import ZArith.
 Local Open Scope N_scope.
 
@@ -95,7 +96,46 @@ Fixpoint rx_of (items : list oitem) (i : N) : list rx * list (option stunmsg) :=
 Definition addr_eqb (a b : list byte * Z) : bool := bytes_eqb (fst a) (fst b) && (snd a =? snd b)%Z.
 Definition subset (a b : list (list byte * Z)) : bool := forallb (fun x => existsb (addr_eqb x) b) a.
 
+(* ---------- Gecko receiver: explicit-panic transcription against the real geckoPacketConn ---------- *)
+(* one inner datagram: source, literal head, generated tail (byte i = a*i+b mod 256, n bytes) *)
+Inductive gpkt := GP (src : N) (hd : list byte) (a b n : N).
+(* one packet ReadFrom returned: index of the datagram that completed it, source, length, digest *)
+Inductive gout := GO (i s l d : N).
+
+Fixpoint gk_acts (i : Z) (l : list gpkt) : list C14_Gecko.action :=
+  match l with
+  | [] => []
+  | GP s hd a b n :: t => C14_Gecko.Packet i s (hd ++ gen_data a b n) (0, 0) :: gk_acts (i + 1)%Z t
+  end.
+
+Fixpoint gk_outs (i : N) (outs : list (option (N * list byte))) : list gout :=
+  match outs with
+  | [] => []
+  | None :: t => gk_outs (i + 1) t
+  | Some (s, b) :: t => GO i s (N.of_nat (length b)) (digest b) :: gk_outs (i + 1) t
+  end.
+
+Definition gout_eqb (x y : gout) : bool :=
+  match x, y with GO i s l d, GO i' s' l' d' => (i =? i') && (s =? s') && (l =? l') && (d =? d') end.
+Fixpoint gouts_eqb (a b : list gout) : bool :=
+  match a, b with
+  | [], [] => true
+  | x :: a', y :: b' => gout_eqb x y && gouts_eqb a' b'
+  | _, _ => false
+  end.
+
+Definition alloc_okb (a : N * Z) : bool :=
+  let cap := (ParamsC14.geckoBufferSize - ParamsC14.geckoHeaderSize)%Z in
+  ((0 <=? snd a) &&
+   match fst a with
+   | 8%N => snd a <=? ParamsC14.geckoMaxFragmentChunks
+   | 10%N => snd a <=? cap
+   | 12%N => snd a <=? ParamsC14.geckoMaxFragmentChunks * cap
+   | _ => false
+   end)%Z.
+
 Inductive case :=
+| CGecko (rbuf : N) (pkts : list gpkt) (panicked : bool) (exp : list gout)
 | CSrv (acts : list sact) (panicked : bool) (exp : list (sexp * N))
 | CCli (acts : list cact) (panicked : bool) (exp : list cexp)
 | CServer (s : script) (w : wscript) (c : N) (writes : list N) (cns : N)
@@ -107,6 +147,11 @@ Inductive case :=
 
 Definition check (c : case) : bool :=
   match c with
+  | CGecko rbuf pkts p exp =>
+      match C03_Gecko.run_p (N.to_nat rbuf) C14_Gecko.r_init (gk_acts 0 pkts) with
+      | Ok (_, outs, al) => negb p && forallb alloc_okb al && gouts_eqb (gk_outs 0 outs) exp
+      | _ => false
+      end
   | CSrv acts p exp =>
       if p then is_panic (srv_run ss_init acts) else srv_trace ss_init acts exp
   | CCli acts p exp =>
